@@ -81,7 +81,7 @@ def main(sys_args: Optional[List[str]] = None) -> int:
         help="""Time to wait after SIGTERM or Ctrl-C for any remaining requests (tasks)
         to complete.""",
         default=sentinel,
-        type=int,
+        type=float,
     )
     parser.add_argument(
         "--read-timeout",
@@ -118,7 +118,7 @@ def main(sys_args: Optional[List[str]] = None) -> int:
         "--keep-alive",
         help="Seconds to keep inactive connections alive for",
         default=sentinel,
-        type=int,
+        type=float,
     )
     parser.add_argument("--keyfile", help="Path to the SSL key file", default=sentinel)
     parser.add_argument(
@@ -207,7 +207,7 @@ def main(sys_args: Optional[List[str]] = None) -> int:
         help="""If set this is the time in seconds between pings sent to the client.
         This can be used to keep the websocket connection alive.""",
         default=sentinel,
-        type=int,
+        type=float,
     )
     parser.add_argument(
         "-w",
